@@ -364,6 +364,18 @@ func vGenAbScript(c *vCase) *vAbScript {
 	s.rescale = vChance(r, 0.15)
 	s.nSample = vRange(r, 2, 12)
 	s.nScript = vRange(r, 30, 140)
+	outage := c.Idx%24 == 7
+	if outage {
+		// a long outage: one group loses more than a thousand packets in a row while the others go on
+		s.nScript = vRange(r, 1300, 1700)
+		s.fpp = vPick(r, 1, 2)
+		if ng > 2 {
+			ng = 2
+		}
+		if s.nprod > ng {
+			s.nprod = ng
+		}
+	}
 	next := r.Intn(3) * 8
 	for g := 0; g < ng; g++ {
 		nch := vRange(r, 1, 8)
@@ -387,6 +399,14 @@ func vGenAbScript(c *vCase) *vAbScript {
 	end := s.nSample + s.nScript
 	for gi := range s.groups {
 		g := &s.groups[gi]
+		if outage && gi == 0 {
+			a := s.nSample + r.Intn(30)
+			for k := 0; k < vRange(r, 1030, 1250) && a+k < end-1; k++ {
+				g.lost[a+k] = true
+			}
+			c.Cov("scripts_with_an_outage_of_over_1024_packets", 1)
+			continue
+		}
 		switch r.Intn(6) {
 		case 0: // none
 		case 1: // isolated
@@ -925,7 +945,7 @@ func init() {
 		},
 		Run: vRunAbaco,
 		Meta: vMeta{Level: "exploration",
-			Rule: "case = script (1-4 channel groups on 1-3 producers, 1-8 channels each, 1-32 frames per packet, int16/int32 payloads, per-group sequence-number bases, per-group loss pattern none/isolated/bursts/long run/first packets/dense, per-tick per-group batching incl. empty ticks and lagging groups), executed 3 (quick) or 6 (thorough) times because the reader iterates a Go map; the real Start..CoreLoop pipeline runs against scripted PacketProducers and every block handed to ProcessSegments is compared with the per-channel reference stream (delivered samples, frames-per-packet filler per lost packet), equal lengths, contiguous frame numbers and the dropped-frame total; non-trivial = every executed script; additions: external-trigger packets mixed into the stream (1 case in 4), a slow consumer (1 in 3), and a quiescence phase at the end (no more packets; after six empty ticks nothing complete may be held back); one case in 16 uses the shared-memory device instead (AbacoRing over a real ring the harness publishes into in pieces that ignore packet boundaries, before and after start and a second discard): every read must return exactly the whole packets published and not yet read, in order and bit-exact; one case in 16 uses the UDP device over a loopback socket (whole packets of several lengths, packets cut short, noise, empty datagrams): what it hands on must be a subsequence of the whole packets sent, each bit-exact, and a batch handed on earlier must not change; one case in 3 of the non-unwrapping ones inverts 1-2 channels, with or without rescaling",
+			Rule: "case = script (1-4 channel groups on 1-3 producers, 1-8 channels each, 1-32 frames per packet, int16/int32 payloads, per-group sequence-number bases, per-group loss pattern none/isolated/bursts/long run/first packets/dense (and, in one case of 24, an outage of 1030-1250 packets in one group of a 1300-1700-packet script), per-tick per-group batching incl. empty ticks and lagging groups), executed 3 (quick) or 6 (thorough) times because the reader iterates a Go map; the real Start..CoreLoop pipeline runs against scripted PacketProducers and every block handed to ProcessSegments is compared with the per-channel reference stream (delivered samples, frames-per-packet filler per lost packet), equal lengths, contiguous frame numbers and the dropped-frame total; non-trivial = every executed script; additions: external-trigger packets mixed into the stream (1 case in 4), a slow consumer (1 in 3), and a quiescence phase at the end (no more packets; after six empty ticks nothing complete may be held back); one case in 16 uses the shared-memory device instead (AbacoRing over a real ring the harness publishes into in pieces that ignore packet boundaries, before and after start and a second discard): every read must return exactly the whole packets published and not yet read, in order and bit-exact; one case in 16 uses the UDP device over a loopback socket (whole packets of several lengths, packets cut short, noise, empty datagrams): what it hands on must be a subsequence of the whole packets sent, each bit-exact, and a batch handed on earlier must not change; one case in 3 of the non-unwrapping ones inverts 1-2 channels, with or without rescaling",
 			Assumptions: []string{"all groups use the same frames per packet (the code panics otherwise and says so)", "every group has at least two time-stamped packets while sampling (the sample rate and the relation between the groups' sequence numbers are derived from them; the code panics if groups disagree on the rate); 1 case in 5 stamps only every other packet of the run and leaves a group's last sampled packet unstamped; streams without any timestamp only with a single group", "the run continues the sequence numbers seen while sampling",
 				"filler values are not constrained, only their count", "dropped frames are counted per group (two groups losing one packet each = 2 x frames per packet)"},
 			Guards: map[string]map[string]int{
